@@ -57,6 +57,13 @@ CLAIMS = {
          "self-referential objects (reference or pointer into the same complete object) are not copied member-wise. Does not decide behavioural equality "
          "of two runs as such.",
          "constructor-initialiser / record-layout rules + call-graph reachability over clang AST facts (static analysis)"),
+ "C11": ("Decides absence of dynamic allocation (expressions, callees, member types, includes), that every write growing a fixed array through a member "
+         "counter is dominated by a capacity test in the function or at every call site, the one-past read of the bit-range views, that range views "
+         "cover exactly ceil(width/8) units, that shift amounts that are constants / masked / folded template constants are in range (rotations called "
+         "with 0<k<W), that the memcpy/memset helpers are instantiated on trivially copyable operands of fitting size, plus the serialization bit budget "
+         "and pool reset as the guards of the two indices not tested locally. Does not decide in-range-ness of arbitrary subscripts; shifts needing a "
+         "relational loop invariant are listed as undecided.",
+         "who-may-grow / dominance path rules + constant-range evaluation + type-trait queries over clang AST facts (static analysis)"),
  "C12": ("Decides tie-breaking operators (left half kept on ties), the utility composition formulas of nested composite / orthogonal regions as expression "
          "shape, same-kind delegation of reports on the way down, rank masking, the shape of the cumulative walk (skip iff cursor >= utility, one rng.next() "
          "per resolution, rng.next called nowhere else, the arrays walked are the arrays summed), that the walk cannot return none, and the anonymous-head "
